@@ -159,6 +159,13 @@ def PatternEncoderSelected(payload):
 
 
 @trigger
+def FastEncoderWithIncompatibility(payload):
+    """History replayed on the fast encoder over a description with an incompatibility constraint (taking an option
+    can remove options of another choice, which is then resolved automatically - also when it was fixed)."""
+    return payload.get('enc') == 'fast' and bool(_g(payload).get('inc'))
+
+
+@trigger
 def HasConnectionChoice(payload):
     return bool(_g(payload).get('cc'))
 
